@@ -878,15 +878,18 @@ func runMergeChild(which string, c *ev.ChildEnv, res *ev.Result) {
 			o.Kind = "create"
 			o.Disjoint = true
 			o.OpsMax = 6
+			o.Boundary = true
 		case "C04":
 			o.Kind = []string{"create", "create", "update"}[g.rng.IntN(3)]
 			o.Disjoint = true
 			o.OpsMax = 5
+			o.Boundary = true
 		case "C05":
 			o.Kind = []string{"create", "update", "update", "stop"}[g.rng.IntN(4)]
 			o.Disjoint = x < 0.6
 			o.Ignore = 0.35
 			o.SelfUpd = 0.05
+			o.Boundary = true
 		}
 		cases = append(cases, g.genCase(id(len(cases)), o))
 	}
